@@ -233,7 +233,33 @@ def run(repo, rep, tier):
         "names and versions of the installed distributions both enter the "
         "key", construct="package-digest-complete", where=L.where(gp),
         detail=str(ups))
+    versions_total(repo, rep)
     L.state_rule(repo, rep)
+
+
+def versions_total(repo, rep, rule="R15.1"):
+    """a distribution without version metadata has version None: the table
+    the key is computed from holds a string for it (None cannot be encoded:
+    no template could be constructed in such an environment)"""
+    sv = repo.func("chameleon.template.safe_get_package_version")
+    optional = any(isinstance(r_, ast.Return) and (
+        r_.value is None or src(r_.value) == "None")
+        for r_ in ast.walk(sv.node))
+    gv = repo.func("chameleon.template.get_package_versions")
+    uses = [c for c in ast.walk(gv.node) if isinstance(c, ast.Call)
+            and src(c.func) == "safe_get_package_version"]
+    ok = bool(uses)
+    for c in uses:
+        par = getattr(c, "_parent", None)
+        guarded = isinstance(par, ast.BoolOp) and isinstance(par.op, ast.Or) \
+            and par.values[0] is c and isinstance(
+                par.values[-1], ast.Constant) and isinstance(
+                    par.values[-1].value, str)
+        if optional and not guarded:
+            ok = False
+    rep.check(ok, rule, gv.qualname, "a distribution without a version "
+              "enters the table as a string (never None)",
+              construct="version-none-guarded", where=L.where(gv))
 
 
 def _coverage(repo, rep):
@@ -666,6 +692,34 @@ def _environment(repo, rep):
     rep.check(ok, "R15.3", "chameleon.config.CACHE_DIRECTORY", "the cache "
               "directory is an absolute path from import time on",
               construct="cache-dir-absolute", detail=str(vals))
+    # ... and naming a cache directory is what switches the stored modules
+    # on: the templates' loader is the file-based one whenever the directory
+    # is set (debug mode or not), and that loader is rooted at the directory
+    bt = repo.cls("chameleon.template.BaseTemplate")
+    # (the model writes 'if c: x = A else: x = B' as x = A if c else B)
+    sel = [a.value for a in bt.node.body if isinstance(a, ast.Assign)
+           and src(a.targets[0]) == "loader"
+           and isinstance(a.value, ast.IfExp)]
+    oks = len(sel) == 1
+    if oks:
+        pt, flip = L._CanonIf._pos(sel[0].test)
+        names = {src(v) for v in (pt.values if isinstance(pt, ast.BoolOp)
+                                  and isinstance(pt.op, ast.Or) else [pt])}
+        on = sel[0].orelse if flip else sel[0].body
+        oks = "CACHE_DIRECTORY" in names and \
+            src(on) == "_make_module_loader()"
+    ml = repo.func("chameleon.template._make_module_loader")
+    uses = False
+    for pth in P.enum_paths(ml.node.body):
+        conds = {src(e[1]): e[2] for e in pth if e[0] == "cond"}
+        if conds.get("CACHE_DIRECTORY") is True:
+            uses = any(e[0] == "assign" and e[1] == "path" and
+                       src(e[2]) == "CACHE_DIRECTORY" for e in pth)
+    rep.check(oks and uses, "R15.3", bt.qualname + ".loader", "with a cache "
+              "directory configured the templates use the file-based "
+              "loader, rooted at that directory (stored modules are there "
+              "for a later process)", construct="cache-dir-selects-loader",
+              where=L.where(ml))
     # the package digest is a module-level hash object: every key starts
     # from a *copy* of it (a key must not depend on the keys computed
     # earlier in the process)
